@@ -202,6 +202,7 @@ def run(ck, F):
     rule_dispatch(ck, F, X)
     rule_emission(ck, F, X)
     rule_merge_keeps_components(ck, F)
+    rule_imports_followed(ck, F)
     rule_naming(ck, F, X)
 
 
@@ -715,6 +716,58 @@ def rule_merge_keeps_components(ck, F):
                          f"{short} does not append the incoming document's `{fld}` as a whole (filtered, de-duplicated by a key, or not merged): "
                          f"components declared in an imported schema can be dropped, e.g. a type whose local name also occurs in another namespace")
     ck.floor("R5", "component collections of RustDocument", len(comp_fields), 5)
+
+
+def rule_imports_followed(ck, F):
+    """An import is not followed (an empty document stands for it) only for a reason that is exact: its namespace *is* one of the
+    constant well-known namespaces, it has no schemaLocation, or its file was read already. A test on part of the namespace text
+    (prefix, suffix, substring, case-folded) skips schemas that do have definitions: their types disappear from the output."""
+    empties = A.by_signature(F, [], "model::doc::RustDocument")
+    if len(empties) != 1:
+        ck.undecided("R5", "imports-followed", "-", f"the constructor of the empty document `fn() -> RustDocument` could not be attributed uniquely ({empties})")
+        return
+    empty = empties[0]
+    g = scans.call_graph(F.lib)
+    live = scans.api_reachable(F.lib)
+    W = og.EnvWalker(F)
+    CE = og.CallExpander(F)
+    inexact = ("starts_with", "ends_with", "eq_ignore_ascii_case", "to_lowercase", "to_uppercase", "to_ascii_lowercase", "to_ascii_uppercase",
+               "trim", "trim_start", "trim_end", "trim_matches", "trim_end_matches", "trim_start_matches", "strip_prefix", "strip_suffix",
+               "find", "rfind", "matches", "split", "split_once", "rsplit", "get", "chars", "bytes", "len", "is_empty")
+    n = 0
+    for b in F.lib.bodies:
+        if b.get("hir") is None or b.get("closure") or b["path"] not in live or not b["path"].startswith(("reader::", "<reader::")) or "tests::" in b["path"]:
+            continue
+        sites = []
+
+        def cb(e, env, ctx, sites=sites):
+            if e.get("k") in ("Call", "MethodCall") and (Hh.callee_path(e) or "") == empty:
+                sites.append((Hh.sp(e), ctx))
+        try:
+            W.walk_fn(b["path"], cb)
+        except og.Unrecognised:
+            continue
+        short = b["path"].rsplit("::", 1)[-1]
+        for site, ctx in sites:
+            n += 1
+            bad = []
+            for c in ctx:
+                if c[0] != "alt":
+                    continue
+                cond = CE.expand(c[1])
+                for call in og.nf_calls(cond):
+                    name = str(call[1]).rsplit("::", 1)[-1]
+                    on_text = any("namespace" in og.nf_str(a_) for a_ in call[2])
+                    if on_text and (name in inexact or (name == "contains" and "str>" in str(call[1]))):
+                        bad.append((name, og.nf_str(cond)[:140]))
+            if bad:
+                ck.violation("R5", f"imports-followed:{short}", site,
+                             f"{short} stands an empty document in for an import on a test of part of its namespace text (`{bad[0][0]}`: {bad[0][1]}): "
+                             f"schemas of other namespaces that match are not read, the types they declare are missing from the output")
+            else:
+                ck.ok("R5", f"imports-followed:{short}", site, f"{short}: an import is replaced by the empty document only for exact reasons (constant namespace list, no location, file read already)")
+    if n == 0:
+        ck.ok("R5", "imports-followed:none", "-", "no import is replaced by an empty document")
 
 
 # ---- R6 ---------------------------------------------------------------------------------------------
